@@ -1782,14 +1782,17 @@ def _thread_search_loop(stmts):
             if any(_mentions(x, v) for x in out[i + 2:]) or not _mentions(nxt, v):
                 i += 1
                 continue
-            # every break of this loop directly follows `v = E`
+            # every break of this loop directly follows `v = E` (or v is the loop variable itself: the item at hand)
             sites = []
             ok = True
+            v_is_target = isinstance(loop.target, ast.Name) and loop.target.id == v
 
             def scan(block):
                 nonlocal ok
                 for k, st in enumerate(block):
-                    if isinstance(st, ast.Break):
+                    if isinstance(st, ast.Break) and v_is_target:
+                        sites.append((block, k))
+                    elif isinstance(st, ast.Break):
                         prev = block[k - 1] if k else None
                         if isinstance(prev, ast.Assign) and len(prev.targets) == 1 and isinstance(prev.targets[0], ast.Name) and prev.targets[0].id == v and isinstance(prev.value, (ast.Name, ast.Attribute, ast.Subscript)) and not (isinstance(prev.value, ast.Name) and prev.value.id in S_) and not any(isinstance(x, ast.Call) for x in ast.walk(prev.value)):
                             sites.append((block, k))
@@ -1809,7 +1812,7 @@ def _thread_search_loop(stmts):
 
             scan(loop.body)
             other_stores = [x for st in loop.body for x in ast.walk(st) if isinstance(x, ast.Name) and x.id == v and isinstance(x.ctx, (ast.Store, ast.Del))]
-            if not ok or not sites or len(other_stores) != len(sites) or any(isinstance(x, ast.Name) and x.id == v and isinstance(x.ctx, (ast.Store, ast.Del)) for x in ast.walk(nxt)):
+            if not ok or not sites or len(other_stores) != (0 if v_is_target else len(sites)) or any(isinstance(x, ast.Name) and x.id == v and isinstance(x.ctx, (ast.Store, ast.Del)) for x in ast.walk(nxt)):
                 i += 1
                 continue
 
@@ -1833,8 +1836,11 @@ def _thread_search_loop(stmts):
                 return c
 
             for block, k in sorted(sites, key=lambda t: -t[1]):
-                E = block[k - 1].value
-                block[k - 1:k + 1] = _fold_constant_ifs([inst(E, False)])
+                if v_is_target:
+                    block[k:k + 1] = _fold_constant_ifs([inst(ast.Name(id=v, ctx=ast.Load()), False)])
+                else:
+                    E = block[k - 1].value
+                    block[k - 1:k + 1] = _fold_constant_ifs([inst(E, False)])
             loop.orelse = _fold_constant_ifs([inst(S, True)])
             out[i:i + 2] = [canon_stmt(ast.fix_missing_locations(loop))]
             continue
